@@ -104,6 +104,11 @@ def mk_targets(spec):
 
 
 def canon_exc(ex):
+    """a refusal: its class and message are reported for information only (the property does not fix them)"""
+    return ["refused", "%s: %s" % (type(ex).__name__, str(ex)[:200])]
+
+
+def canon_exc_old(ex):
     msg = str(ex)
     if isinstance(ex, TypeError):
         return ["typeerror", msg]
@@ -141,7 +146,11 @@ def pre_step(M, P, mesh, st):
             mesh.vertices[i] = M.Vec(float(p[0]) * sx[0], float(p[1]) * sx[1], float(p[2]) * sx[2])
     elif op == "warm":               # a query issued earlier in the session (fills caches)
         nn = len(mesh.vertices)
-        P.shortest_path(mesh, st.get("start", 0) % nn, [st.get("target", nn - 1) % nn], st.get("weights", "length"))
+        if st.get("f") == "set":
+            P.shortest_path_to_vertex_set(mesh, st.get("start", 0) % nn, [st.get("target", nn - 1) % nn, (st.get("target", 0) + 1) % nn],
+                                          st.get("weights", "length"))
+        else:
+            P.shortest_path(mesh, st.get("start", 0) % nn, [st.get("target", nn - 1) % nn], st.get("weights", "length"))
     else:
         raise ValueError(op)
 
@@ -282,12 +291,17 @@ def run_case(case):
                 r, pm = r
             if not isinstance(r, dict):
                 return ["other", "not a dict: %r" % (r,)], None
-            o = ["paths", [[to_int(t), [to_int(x) for x in p]] for t, p in r.items()]]
+            def plist(p):
+                try:
+                    return [to_int(x) for x in p]
+                except Exception:  # noqa
+                    return None          # not a vertex list (None, ...): free for a target that is not connected
+            o = ["paths", [[to_int(t), plist(p)] for t, p in r.items()]]
             if pm is not None:
                 o.append(canon_polyline(pm))
             return o, [r] + list(r.values())
         if q["f"] == "set":
-            if not (isinstance(r, tuple) and len(r) == (3 if exp else 2)):
+            if not (isinstance(r, (tuple, list)) and len(r) == (3 if exp else 2)):
                 return ["other", "not a %d-tuple: %r" % (3 if exp else 2, r)], None
             o = ["set", to_int(r[0]), [to_int(x) for x in r[1]]]
             if exp:
@@ -295,7 +309,7 @@ def run_case(case):
             return o, [r[1]]
         pm = None
         if exp:
-            if not (isinstance(r, tuple) and len(r) == 2):
+            if not (isinstance(r, (tuple, list)) and len(r) == 2):
                 return ["other", "not a pair: %r" % (r,)], None
             r, pm = r
         o = ["border", [to_int(x) for x in r]]
@@ -331,7 +345,7 @@ def run_case(case):
                 signal.alarm(QUERY_TIMEOUT)
                 r2 = call(q, mk_targets(q["targets"]) if "targets" in q else None)
                 o2, _ = canon(q, r2)
-                ex_info["repeat"] = None if o2 == o else o2
+                ex_info["repeat"] = o2        # judged by the oracle like the first answer (it need not be the same answer)
         except QueryTimeout:
             obs.append(["timeout", "no answer within %d s" % QUERY_TIMEOUT])
         except MemoryError:
